@@ -400,7 +400,8 @@ def finish(ctx, module):
         'wall_s': round(time.time() - ctx.t0, 2),
         'violations': len(violations) + (1 if (not violations and ctx.broken) else 0),
     }
-    write_json(os.path.join(VERIF, 'evidence', ctx.prop + '.json'), ev)
+    # (seeded-change experiments redirect their evidence so the committed files stay those of clean runs)
+    write_json(os.path.join(os.environ.get('VERIF_EVIDENCE_DIR') or os.path.join(VERIF, 'evidence'), ctx.prop + '.json'), ev)
     return rc
 
 
